@@ -115,3 +115,24 @@ Definition check_c03_sym (c : c03_sym) : bool * bool :=
   let (t, _) := symbol_command (match y_stage c with Some st => model_source st | None => valid_source end) in
   ( Nat.eqb (length (filter (fun e => negb (is_validation_event e)) t)) (y_obs_markers c) && Nat.eqb (y_obs_sandbox_dirs c) 0,
     Nat.eqb (y_obs_markers c) 0 && Nat.eqb (y_obs_sandbox_dirs c) 0 ).
+
+(** *** C03 for a case run as one of the cases of a suite (`exactly suite`): the instruction that is
+    defective for this case stands in the suite file (its instruction objects are shared by all
+    the cases of the suite), the definitions or home files that make it defective are the case's own.
+    The case's outcome is the status the suite reports for it; markers are those written by this
+    case; sandboxes are those created beyond the one of each valid case. *)
+Record c03_suite := C03Suite {
+  u_stage : defect_stage;
+  u_obs_ident : ident;
+  u_obs_markers : nat;
+  u_obs_extra_sandboxes : nat }.
+
+Definition check_c03_suite (c : c03_suite) : bool * bool :=
+  let '(w', t, r) := process false (model_source (u_stage c)) (fun _ => EffNone) w0 in
+  let (code, id) := exit_value r in
+  ( ident_eqb id (u_obs_ident c) &&
+    Nat.eqb (length (w_roots w')) (u_obs_extra_sandboxes c) &&
+    Nat.eqb (length (filter (fun e => negb (is_validation_event e)) t)) (u_obs_markers c),
+    (ident_eqb (u_obs_ident c) (IdFull SYNTAX_ERROR) || ident_eqb (u_obs_ident c) (IdAccess ACC_SYNTAX_ERROR) ||
+     ident_eqb (u_obs_ident c) (IdAccess FILE_ACCESS_ERROR) || ident_eqb (u_obs_ident c) (IdFull VALIDATION_ERROR)) &&
+    Nat.eqb (u_obs_markers c) 0 && Nat.eqb (u_obs_extra_sandboxes c) 0 ).
